@@ -443,7 +443,7 @@ class FunctionReference:
 
         # Parse information from the string
         match = re.match(
-            r"((?P<cluster>.*)::)?(?P<module>.*):(?P<function>[^#]*)(#(?P<version>.*))?",
+            r"((?P<cluster>[^#]*?)::)?(?P<module>[^:#]*):(?P<function>[^#]*)(#(?P<version>.*))?",
             qualified_name,
         )
         if not match:
